@@ -20,11 +20,11 @@ from ..framework import Check
 class C07(Check):
     pid = "C07"
     title = "Simplification never changes meaning and leaves nothing redundant"
-    level_text = 'Lean theorems simplify_selection / simplify_equiv / simplify_irredundant / simplify_error_infeasible (and their matrix-level core_* versions) for the executable model of simplify / reduce_polytope, for every tie resolution and every certified LP oracle; tied to the code by comparing the kept sub-list (exact structure, 1e-9 numbers) under both tie resolutions; judge: selection, equivalence in context and droppability with margin by certified exact LP.'
-    lean_modules = ["Pacti.Props.C07"]
+    level_text = 'Lean theorems ctor_simplify / ctor_behaviours / ctor_error (contract construction and IoContract.simplify(): assumptions untouched, guarantees a selection equivalent under the assumptions with nothing redundant left, behaviours of assumptions-with-guarantees unchanged) and simplify_selection / simplify_equiv / simplify_irredundant / simplify_error_infeasible (and their matrix-level core_* versions) for the executable model of simplify / reduce_polytope, for every tie resolution and every certified LP oracle; tied to the code by comparing the kept sub-list (and the constructed contract) (exact structure, 1e-9 numbers) under both tie resolutions; judge: selection, equivalence in context and droppability with margin by certified exact LP.'
+    lean_modules = ["Pacti.Props.C07", "Pacti.Props.C07Ctor"]
     theorems = ["Pacti.C07.simplify_selection", "Pacti.C07.simplify_equiv", "Pacti.C07.simplify_error_infeasible",
                 "Pacti.C07.simplify_irredundant", "Pacti.C07.core_selection", "Pacti.C07.core_equiv", "Pacti.C07.core_error",
-                "Pacti.C07.core_irredundant"]
+                "Pacti.C07.core_irredundant", "Pacti.C07.ctor_simplify", "Pacti.C07.ctor_behaviours", "Pacti.C07.ctor_error"]
     quick_n = 1500
     thorough_n = 60000
     judge_sample = 400
